@@ -36,13 +36,23 @@ CONTAINERS = ['lists', 'strings', 'generator', 'dataframe']
 # --------------------------------------------------------------------------
 
 def rt_task(c):
-    return {'op': 'text_roundtrip', 'events': c['events'], 'container': c['container'],
-            'compression': c['compression'], 'compatible': c['compatible'],
-            'count_jobs': c.get('count_jobs')}
+    t = {'op': 'text_roundtrip', 'events': c['events'], 'container': c['container'],
+         'compression': c['compression'], 'compatible': c['compatible'],
+         'count_jobs': c.get('count_jobs')}
+    for k in ('df', 'columns', 'delimiter'):
+        if c.get(k) is not None:
+            t[k] = c[k]
+    return t
+
+
+# containers whose sides reach the writer as "_"-joined strings (split by events_from_list /
+# events_from_dataframe, joined again by the writer): the model's `eventOfStrings`
+JOINED = ('strings', 'dataframe', 'from_dataframe', 'mixed')
+LEGACY = ['Cues', 'Outcomes', 'Frequency']
 
 
 def rt_request(c):
-    if c['container'] in ('strings', 'dataframe'):
+    if c['container'] in JOINED:
         evs = [[T.cps('_'.join(cu)), T.cps('_'.join(ou))] for cu, ou in c['events']]
         cont = 'strings'
     else:
@@ -51,6 +61,10 @@ def rt_request(c):
     req = {'op': 'text_roundtrip', 'container': cont, 'events': evs, 'compatible': bool(c['compatible'])}
     if c.get('count_jobs') and c['compression'] == 'gzip':
         req['count_jobs'] = c['count_jobs']
+    if c.get('columns') is not None:
+        req['columns'] = [T.cps(x) for x in c['columns']]
+    if c.get('delimiter') is not None:
+        req['delimiter'] = T.cps(c['delimiter'])
     return req
 
 
@@ -132,7 +146,18 @@ def judge_rt(c, impl, model):
     d = diff_read(impl, mr)
     if d:
         probs.append(d)
-    if T.well_formed(c['events']):
+    if impl.get('stage') != 'write':
+        # the written file itself, character by character (header from `columns=`, `delimiter=`)
+        if impl.get('raw') != model.get('content'):
+            raw = impl.get('raw')
+            probs.append('writer: the file holds %r, model %r' % (T.uncps(raw)[:120] if isinstance(raw, list) else raw,
+                                                                  T.uncps(model.get('content') or [])[:120]))
+        want_warning = bool(c['compatible']) and list(c.get('columns') or ['cues', 'outcomes']) != LEGACY
+        if impl.get('legacy_warning') is not None and bool(impl['legacy_warning']) != want_warning:
+            probs.append('writer: legacy-column warning %s, but compatible=%r columns=%r (io.py: issued iff compatible and '
+                         'columns differ from the legacy triple)' % ('issued' if impl['legacy_warning'] else 'not issued',
+                                                                    c['compatible'], c.get('columns')))
+    if T.well_formed(c['events']) and c.get('delimiter') in (None, '\t'):
         want = {'events': T.file_norm(c['events'])}
         d = diff_read(impl, want)
         if d:
@@ -143,7 +168,7 @@ def judge_rt(c, impl, model):
         d = diff_count(impl.get('count', {'err': 'missing'}), model_count(model['count']))
         if d:
             probs.append(d)
-        if T.well_formed(c['events']) and 'err' not in impl.get('count', {'err': 1}):
+        if T.well_formed(c['events']) and c.get('delimiter') in (None, '\t') and 'err' not in impl.get('count', {'err': 1}):
             d = diff_count(impl['count'], direct_count(T.file_norm(c['events'])))
             if d:
                 probs.append('property (count = direct count of the written events): ' + d)
@@ -200,6 +225,40 @@ def gen_rt(r, n_cases):
         out.append({'kind': 'rt', 'stream': 'roundtrip', 'events': evs, 'container': CONTAINERS[i % 4],
                     'compression': ['gzip', None][(i // 4) % 2], 'compatible': bool((i // 8) % 2),
                     'count_jobs': r.choice([1, 2, 3, 5])})
+    return out
+
+
+# ---- what the writer is handed (second round-trip stream): more containers, DataFrame shapes, `columns=`, `delimiter=`
+CONTAINERS2 = ['tuple', 'tuples', 'iterator', 'map', 'mixed', 'dataframe', 'dataframe', 'dataframe', 'from_dataframe',
+               'from_dataframe', 'lists', 'strings', 'generator']
+# `columns=` (documented: a tuple of column names; it names the header line only). None = not passed
+COLUMNS = [None, None, ['cues', 'outcomes'], ['outcomes', 'cues'], LEGACY, ['Cues', 'Outcomes'],
+           ['\xe4 c', '\u96ea', 'x'], ['only']]
+# `delimiter=`: None = not passed; a non-TAB delimiter gives a file the reader cannot parse (model: ValueError
+# as soon as there is one event) - there the writer's output alone is compared
+DELIMITERS = [None, None, None, None, '\t', '\t', ',', ' ', '|', '\t\t', ';_']
+DF_NAMES = [['cues', 'outcomes'], ['Cues', 'Outcomes'], ['outcomes', 'cues'], ['c', 'o'], ['\u96ea', 'cues'], ['0', '1']]
+
+
+def gen_rt2(r, n_cases):
+    out = []
+    for i in range(n_cases):
+        n = r.choice([0, 1, 1, 2, 3, 4, 6])
+        alpha = T.FULL if i % 3 else (T.SPACES + T.MARKS + T.ASTRAL + list('a#1 ,|;'))
+        evs = T.events(r, n, alpha)
+        c = {'kind': 'rt', 'stream': 'writer_inputs', 'events': evs, 'container': CONTAINERS2[i % len(CONTAINERS2)],
+             'compression': r.choice(['gzip', 'gzip', None]), 'compatible': r.random() < 0.4,
+             'count_jobs': r.choice([1, 2, 3]), 'columns': r.choice(COLUMNS), 'delimiter': r.choice(DELIMITERS)}
+        if c['compatible'] and r.random() < 0.35:
+            c['columns'] = LEGACY            # the triple given explicitly: the branch that does not warn
+        if c['container'] in ('dataframe', 'from_dataframe'):
+            c['df'] = {'order': r.choice(['co', 'oc']), 'extra': r.choice([None, 'first', 'middle', 'last']),
+                       'index': r.choice(['default', 'str', 'reversed', 'dup', 'multi']),
+                       'dtype': r.choice(['object', 'object', 'string', 'category']),
+                       # events_to_file reads the columns NAMED cues / outcomes (it does not forward `columns=`);
+                       # other names only through io.events_from_dataframe(df, columns=names)
+                       'names': r.choice(DF_NAMES) if c['container'] == 'from_dataframe' else ['cues', 'outcomes']}
+        out.append(c)
     return out
 
 
@@ -271,8 +330,11 @@ def gen_learn(r, n_cases):
             os_ = [] if (i % 3 == 0 and r.random() < 0.3) else r.sample(pool, r.randint(1, min(2, len(pool))))
             evs.append([cs, os_])
         freq = [r.randint(0, 3) for _ in evs] if i % 2 else None
+        # events_per_temporary_file: 2, 3 or the default - with a frequency column the chunk windows and
+        # `number_events` count the EXPANDED events, so chunk size x frequency x method is varied here
         base = dict(gen.params(r), events=evs, freq=freq, policy=r.choice(['error', 'keep']), stream='forms',
-                    n_jobs=r.choice([1, 2]), per_job=r.choice([1, 10]), kind='learn', group=i)
+                    n_jobs=r.choice([1, 2]), per_job=r.choice([1, 10]), kind='learn', group=i,
+                    per_file=[2, 3, 10000000][(i // 2) % 3] if i < 12 else r.choice([2, 3, 10000000]))
         if i % 3 == 1:
             # the call continues from earlier weights (weights=...): still the same result for every form
             outs = sorted({o for _, os_ in evs for o in os_} | {''})[:3] + ['PRIOR']
@@ -286,14 +348,16 @@ def gen_learn(r, n_cases):
 
 
 def learn_variants(base):
-    """(learner, form, impl task, model request) for the six input forms of one base case"""
+    """(learner, form, impl task, model request) for the nine learner x input form combinations of one base case"""
     rows = [[c, o, (base['freq'][k] if base['freq'] is not None else None)] for k, (c, o) in enumerate(base['events'])]
     expanded = T.expand(rows)
     res = []
-    for learner, forms in (('ndl_threading', NDL_FORMS), ('dict_ndl', DICT_FORMS)):
+    for learner, forms in (('ndl_threading', NDL_FORMS), ('ndl_openmp', NDL_FORMS), ('dict_ndl', DICT_FORMS)):
         for form in forms:
             filef = form in ('path', 'pathobj')
-            case = dict(base, form=form, events=(base['events'] if filef else expanded))
+            # (the frequency column is attached to the file-form tasks below; the case handed to the shared
+            # helpers carries none, their own `freq` handling would expand a second time)
+            case = dict(base, form=form, events=(base['events'] if filef else expanded), freq=None)
             t = L.impl_task(case, learner)
             if filef and base['freq'] is not None:
                 t['freq'] = base['freq']
@@ -304,7 +368,7 @@ def learn_variants(base):
 
 
 def eval_learn(pool, driver, b):
-    """all six input forms of one base case: [(learner, form, what, impl, model)] of disagreements"""
+    """all nine learner x input form combinations of one base case: [(learner, form, what, impl, model)] of disagreements"""
     vs = learn_variants(b)
     impls = pool.map([v[2] for v in vs])
     models = driver.ask([v[3] for v in vs])
@@ -342,7 +406,13 @@ def shrink_learn(pool, driver, b):
         return bool(eval_learn(pool, driver, from_rows(b, c['rows'], c.get('nofreq'))))
     small, steps = T.shrink_rows({'rows': to_rows(b), 'nofreq': b['freq'] is None}, 'rows', fails, budget=25,
                                  simplify=[('nofreq', True)])
-    return from_rows(b, small['rows'], small.get('nofreq')), steps
+    small = from_rows(b, small['rows'], small.get('nofreq'))
+    if small.get('per_file', 10000000) != 10000000:
+        c = dict(small, per_file=10000000)
+        steps += 1
+        if eval_learn(pool, driver, c):
+            small = c
+    return small, steps
 
 
 # --------------------------------------------------------------------------
@@ -351,15 +421,36 @@ def shrink_learn(pool, driver, b):
 
 def snippet(c):
     if c['kind'] == 'rt':
+        df = c.get('df') or {'order': 'co', 'extra': None, 'index': 'default', 'dtype': 'object', 'names': ['cues', 'outcomes']}
+        kw = ''.join(', %s=%r' % (k, tuple(c[k]) if k == 'columns' else c[k]) for k in ('columns', 'delimiter') if c.get(k) is not None)
         return '\n'.join([
             "import os, tempfile, pandas as pd", "from pyndl import io, count",
             "events = %r" % (c['events'],),
             "container = %r" % c['container'],
-            "arg = {'lists': events, 'strings': [['_'.join(c), '_'.join(o)] for c, o in events],",
-            "       'generator': ((c, o) for c, o in events),",
-            "       'dataframe': pd.DataFrame({'cues': ['_'.join(c) for c, _ in events], 'outcomes': ['_'.join(o) for _, o in events]}, dtype=object)}[container]",
+            "df_spec = %r  # only for the DataFrame containers" % (df,),
+            "def dataframe():",
+            "    cn, on = df_spec['names']",
+            "    cols = [(cn, ['_'.join(c) for c, _ in events]), (on, ['_'.join(o) for _, o in events])]",
+            "    if df_spec['order'] == 'oc': cols.reverse()",
+            "    if df_spec['extra']: cols.insert({'first': 0, 'middle': 1, 'last': 2}[df_spec['extra']], ('frequency', [3 + k for k in range(len(events))]))",
+            "    df = pd.DataFrame({k: pd.Series(v, dtype='int64' if k == 'frequency' else object) for k, v in cols}, columns=[k for k, _ in cols])",
+            "    if df_spec['dtype'] != 'object':",
+            "        for k in (cn, on): df[k] = df[k].astype(df_spec['dtype'])",
+            "    n = len(events)",
+            "    ix = {'default': None, 'str': ['row%d' % k for k in range(n)], 'reversed': list(range(n - 1, -1, -1)), 'dup': [7] * n,",
+            "          'multi': pd.MultiIndex.from_arrays([[k // 2 for k in range(n)], [k % 2 for k in range(n)]])}[df_spec['index']]",
+            "    if ix is not None: df.index = ix",
+            "    return df",
+            "arg = {'lists': lambda: events, 'strings': lambda: [['_'.join(c), '_'.join(o)] for c, o in events],",
+            "       'generator': lambda: ((c, o) for c, o in events), 'tuple': lambda: tuple(events),",
+            "       'tuples': lambda: [(c, o) for c, o in events], 'iterator': lambda: iter(events),",
+            "       'map': lambda: map(lambda e: (e[0], e[1]), events),",
+            "       'mixed': lambda: [['_'.join(c) if k % 3 != 1 else c, '_'.join(o) if k % 3 != 0 else o] for k, (c, o) in enumerate(events)],",
+            "       'dataframe': dataframe,",
+            "       'from_dataframe': lambda: io.events_from_dataframe(dataframe(), columns=tuple(df_spec['names']))}[container]()",
             "p = os.path.join(tempfile.mkdtemp(), 'events.tab')",
-            "io.events_to_file(arg, p, compression=%r, compatible=%r)" % (c['compression'], c['compatible']),
+            "io.events_to_file(arg, p, compression=%r, compatible=%r%s)" % (c['compression'], c['compatible'], kw),
+            "import gzip; print(repr((gzip.open if %r == 'gzip' else open)(p, 'rb').read().decode('utf-8')))" % (c['compression'],),
             "print(list(io.events_from_file(p, compression=%r)))" % (c['compression'],),
             "print('expected', [(c, o or ['']) for c, o in events])"])
     return '\n'.join([
@@ -376,7 +467,11 @@ def shrink(pool, driver, c):
     def fails(x):
         return bool(evaluate(pool, driver, x)[0])
     if c['kind'] == 'rt':
-        simp = [('container', 'lists'), ('compression', None), ('compatible', False), ('count_jobs', None)]
+        simp = [('container', 'lists'), ('compression', None), ('compatible', False), ('count_jobs', None),
+                ('columns', None), ('delimiter', None)]
+        if c.get('df'):
+            plain = {'order': 'co', 'extra': None, 'index': 'default', 'dtype': 'object', 'names': ['cues', 'outcomes']}
+            simp = [('df', plain), ('df', dict(plain, names=c['df']['names'])), ('df', dict(c['df'], extra=None, index='default'))] + simp
         return T.shrink_rows(c, 'events', fails, simplify=simp)
     simp = [('start', 0), ('step', 1), ('count_jobs', None), ('compression', None), ('eol', '\n'), ('final_eol', True),
             ('header', 'cues\toutcomes')]
@@ -407,6 +502,7 @@ def run(rep, pool, driver, tier):
     r = rng('C07')
     quick = tier == 'quick'
     cs = gen_rt(r, 192 if quick else 1920) + gen_file(r, 120 if quick else 1200) + gen_cr(r, 16 if quick else 64)
+    cs += gen_rt2(rng('C07/writer_inputs'), 156 if quick else 1560)
     tasks = [KINDS[c['kind']][0](c) for c in cs]
     reqs = [KINDS[c['kind']][1](c) for c in cs]
     impls = pool.map(tasks)
@@ -424,6 +520,16 @@ def run(rep, pool, driver, tier):
             rep.count('container:%s' % c['container'])
             rep.count('compression:%s' % c['compression'])
             rep.count('compatible:%s' % c['compatible'])
+            if c['stream'] == 'writer_inputs':
+                rep.count('columns=%s' % ('not passed' if c['columns'] is None else 'legacy triple, compatible=%s' % c['compatible']
+                                          if c['columns'] == LEGACY else '/'.join(c['columns'])))
+                rep.count('delimiter=%s' % ('not passed' if c['delimiter'] is None else repr(c['delimiter'])))
+                if c.get('df'):
+                    for k in ('order', 'extra', 'index', 'dtype'):
+                        rep.count('dataframe_%s:%s' % (k, c['df'][k]))
+                    rep.count('dataframe_columns_named:%s' % '/'.join(c['df']['names']))
+                    if impl.get('df_dtype_fallback'):
+                        rep.count('dataframe_dtype_kept_object(pandas conversion altered the cells)')
         else:
             rep.count('file_start_step:%s' % ('0,1' if (c['start'], c['step']) == (0, 1) else 'sliced'))
             rep.count('file_eol:%r' % c['eol'])
@@ -481,6 +587,12 @@ def run(rep, pool, driver, tier):
         rep.count('form:%s/%s' % (learner, form))
         rep.count('forms_freq_column' if b['freq'] is not None else 'forms_no_freq_column')
         rep.count('forms_continue_from_weights' if b.get('init_lw') else 'forms_from_scratch')
+        if learner != 'dict_ndl':
+            ne = len(T.expand([[c, o, (b['freq'][k] if b['freq'] is not None else None)] for k, (c, o) in enumerate(b['events'])]))
+            chunks = (ne + b['per_file'] - 1) // b['per_file']
+            rep.count('forms_ndl:%s/per_file=%s/%s/%s' % (learner, b['per_file'] if b['per_file'] < 100 else 'default',
+                                                         'freq' if b['freq'] is not None else 'nofreq',
+                                                         '0 events' if ne == 0 else '1 chunk' if chunks == 1 else '>=2 chunks'))
         d = L.compare(impl, model)
         for p in L.side_checks(impl):
             d = d or p
@@ -518,8 +630,10 @@ def run(rep, pool, driver, tier):
                        'observed': {k: impl.get(k) for k in ('err', 'msg', 'cells', 'outcomes', 'cues', 'attrs')},
                        'expected': {k: model.get(k) for k in ('err', 'cells', 'outcomes', 'cues', 'n_events')},
                        'python': 'events = %r\nfreq = %r  # third column of the event file (None: no column)\n'
-                                 '# write events (+freq) to an event file and call %s with form %r, alpha=%s betas=(%s,%s) lambda=%s'
-                                 % (b2['events'], b2['freq'], learner, form, b2['alpha'], b2['beta1'], b2['beta2'], b2['lambda']),
+                                 '# write events (+freq) to an event file and call %s with form %r, alpha=%s betas=(%s,%s) lambda=%s, '
+                                 'events_per_temporary_file=%s, n_jobs=%s, remove_duplicates=%r'
+                                 % (b2['events'], b2['freq'], learner, form, b2['alpha'], b2['beta1'], b2['beta2'], b2['lambda'],
+                                    b2.get('per_file'), b2.get('n_jobs'), {'error': None, 'keep': False}.get(b2['policy'])),
                        'theorem_or_stream': 'stream forms: learn/%s form=%s vs Lean learner model on parse(render(events)) (C07.forms_agree)' % (learner, form),
                        'shrink_steps': steps, 'shrunk_from_events': len(b['events'])})
     rep.extra['failures_total'] = len(failures) + len(lfail)
